@@ -83,6 +83,29 @@ fn guarded<T>(f: impl FnOnce() -> T) -> Result<T, String> {
 const GUARD: usize = 64;
 const GUARD_BYTE: u8 = 0xc5;
 
+// ---- atomic-read discipline of the query functions (C18): while a query runs, the `verif` hooks count the atomic
+// loads that fall into the lower / trees / local buffer; a query that reads shared metadata with plain (non-atomic)
+// reads shows up as too few hooked loads (a data race with concurrent get/put that no single-threaded result exposes)
+static ACC_RANGES: [std::sync::atomic::AtomicUsize; 6] = [const { std::sync::atomic::AtomicUsize::new(0) }; 6];
+static ACC_LOADS: [std::sync::atomic::AtomicUsize; 4] = [const { std::sync::atomic::AtomicUsize::new(0) }; 4];
+static ACC_WRITES: std::sync::atomic::AtomicUsize = std::sync::atomic::AtomicUsize::new(0);
+fn acc_before(_k: llfree::verif::Kind, _addr: usize, _w: usize) {}
+fn acc_after(k: llfree::verif::Kind, addr: usize, _w: usize, _v: u64, _ok: bool) {
+    use std::sync::atomic::Ordering::Relaxed;
+    if k != llfree::verif::Kind::Load {
+        ACC_WRITES.fetch_add(1, Relaxed);
+        return;
+    }
+    for r in 0..3 {
+        let (lo, len) = (ACC_RANGES[2 * r].load(Relaxed), ACC_RANGES[2 * r + 1].load(Relaxed));
+        if addr >= lo && addr < lo + len {
+            ACC_LOADS[r].fetch_add(1, Relaxed);
+            return;
+        }
+    }
+    ACC_LOADS[3].fetch_add(1, Relaxed);
+}
+
 /// A 64-byte aligned buffer of exactly `size` usable bytes with a guard region before and after it.
 struct Buf {
     raw: *mut u8,
@@ -738,6 +761,7 @@ impl<'w> World<'w> {
             let a = self.a.as_ref().unwrap();
             (0..self.ntrees()).map(|t| a.tree_word(t)).collect()
         };
+        let mut acc_line: Option<String> = None;
         let (text, outc) = match op {
             Op::Handoff => {
                 self.b = None;
@@ -784,7 +808,32 @@ impl<'w> World<'w> {
                 }
             }
             _ => {
+                let counting = matches!(op, Op::Stats | Op::StatsAt { .. } | Op::TreeStats | Op::IsFree { .. });
+                if counting {
+                    use std::sync::atomic::Ordering::Relaxed;
+                    let a = self.a.as_ref().unwrap();
+                    for (r, b) in [&a.lower, &a.trees, &a.local].iter().enumerate() {
+                        ACC_RANGES[2 * r].store(b.ptr() as usize, Relaxed);
+                        ACC_RANGES[2 * r + 1].store(b.size, Relaxed);
+                    }
+                    ACC_LOADS.iter().for_each(|c| c.store(0, Relaxed));
+                    ACC_WRITES.store(0, Relaxed);
+                    llfree::verif::set_hooks(Some((acc_before, acc_after)));
+                }
                 let (t, o) = call(&self.a.as_ref().unwrap().alloc, op);
+                if counting {
+                    use std::sync::atomic::Ordering::Relaxed;
+                    llfree::verif::set_hooks(None);
+                    acc_line = Some(format!(
+                        "ACC {} lower={} trees={} local={} other={} writes={}",
+                        self.opi,
+                        ACC_LOADS[0].load(Relaxed),
+                        ACC_LOADS[1].load(Relaxed),
+                        ACC_LOADS[2].load(Relaxed),
+                        ACC_LOADS[3].load(Relaxed),
+                        ACC_WRITES.load(Relaxed)
+                    ));
+                }
                 if let Some(b) = &self.b {
                     let (tb, _) = call(&b.alloc, op);
                     if tb != t {
@@ -795,6 +844,9 @@ impl<'w> World<'w> {
             }
         };
         writeln!(self.w, "{tag} {i} {} => {text}", op.text()).unwrap();
+        if let Some(l) = acc_line {
+            writeln!(self.w, "{l}").unwrap();
+        }
         let a = self.a.as_ref().unwrap();
         if let Some(g) = a.guards() {
             writeln!(self.w, "CANARY {i} {g}").unwrap();
